@@ -18,6 +18,11 @@ type Site struct {
 	// container's statement list.
 	Start, End int
 	InstLen    int // number of statements of the instantiated plus side
+	// NestedChoice: the site is an instance only by a choice inside a nested
+	// list other than the first that fits there (a repeated metavariable
+	// further on rules the first one out). A matcher that commits to the
+	// first way a nested list matches does not find it.
+	NestedChoice bool
 	Depth      int // nesting depth below the file
 }
 
@@ -41,6 +46,9 @@ type Result struct {
 	// Attempts counts nodes at which the pattern was tried; NearMisses counts
 	// attempts that failed only after binding at least one metavariable.
 	Attempts, BoundThenFailed int
+	// NestedChoice counts candidate sites (mandatory or optional) that are
+	// instances only by complete backtracking (see Site.NestedChoice).
+	NestedChoice int
 }
 
 type rewriter struct {
@@ -158,6 +166,14 @@ func (r *rewriter) rwE(n *Tree, slot reflect.Type, slotDesc string, optional boo
 	if !ok && env != r.init {
 		r.res.BoundThenFailed++
 	}
+	nested := false
+	if !ok {
+		// an instance by another choice inside a nested list?
+		r.m.MatchAll(r.p.Minus, n, r.init, func(e *Env) bool { env, ok, nested = e, true, true; return true })
+		if nested {
+			r.res.NestedChoice++
+		}
+	}
 	if ok {
 		repl, err := r.instantiate(r.p.Plus, env, depth)
 		if err != nil {
@@ -182,7 +198,7 @@ func (r *rewriter) rwE(n *Tree, slot reflect.Type, slotDesc string, optional boo
 			rc := *repl
 			rc.Site = idx + 1
 			rc.Orig = r.counterNeutral(func() *Tree { return r.descendE(n, true, depth) })
-			r.res.Sites = append(r.res.Sites, Site{Index: idx, Slot: slotDesc, Node: n, Env: env, Repl: repl, Depth: depth})
+			r.res.Sites = append(r.res.Sites, Site{Index: idx, Slot: slotDesc, Node: n, Env: env, Repl: repl, Depth: depth, NestedChoice: nested})
 			return &rc
 		}
 		r.res.Inadmissible++
@@ -378,6 +394,13 @@ func (r *rewriter) stmtRun(cont *Tree, elems []*Tree, nestedOpt bool, depth int,
 	}
 	r.res.Attempts++
 	env, ok := r.m.matchList(wrapped(r.p.Minus), elems, r.init)
+	nested := false
+	if !ok {
+		r.m.matchListAll(wrapped(r.p.Minus), elems, 0, 0, r.init, func(e *Env) bool { env, ok, nested = e, true, true; return true })
+		if nested {
+			r.res.NestedChoice++
+		}
+	}
 	if !ok {
 		return plain(r), nil
 	}
@@ -433,7 +456,7 @@ func (r *rewriter) stmtRun(cont *Tree, elems []*Tree, nestedOpt bool, depth int,
 		return build(r), nil
 	}
 	idx := len(r.res.Sites)
-	r.res.Sites = append(r.res.Sites, Site{Index: idx, Slot: cont.TypeName() + "." + containerField(cont), Node: cont, Env: env, Start: start, End: end, InstLen: len(inst), Depth: depth})
+	r.res.Sites = append(r.res.Sites, Site{Index: idx, Slot: cont.TypeName() + "." + containerField(cont), Node: cont, Env: env, Start: start, End: end, InstLen: len(inst), Depth: depth, NestedChoice: nested})
 	out := build(r)
 	return out, &r.res.Sites[idx]
 }
